@@ -37,10 +37,16 @@ def handle (toks : List String) (impl : Option String) : Option (String × Strin
         else if isExc a then "ok"
         else if a.startsWith "ok" then "bad:stream_failure_not_reported"
         else "bad:abnormal_outcome_under_stream_failure"
+      | ["fault.option", _sc, sep] =>
+        -- the five separators csv_archive.cpp accepts: , ; tab space |
+        let valid := sep == "44" || sep == "59" || sep == "9" || sep == "32" || sep == "124"
+        if (a.splitOn " ").contains "LEAK" then "bad:memory_leaked_on_the_error_path"
+        else if valid then (if a == "ok" then "ok" else "bad:valid_option_rejected")
+        else if isExc a then "ok"
+        else "bad:invalid_option_not_reported_as_exception"
       | ["fault.midsave", sc] =>
         if isExc a then "ok"
         else if a == "terminate" ∧ sc.startsWith "csv_ragged" then "known:csv-write-dtor-throws"
-        else if a.startsWith "ok" ∧ sc == "json_nan" then "known:json-nonfinite-silently-truncated"
         else "bad:mid-save_error_not_reported_as_exception"
       | _ => "nospec"
   match toks with
